@@ -499,26 +499,17 @@ def _structural(ctx) -> None:
     }
 
     def kind_truth(c, O, kind):
+        from ..tv import tv as _tv
         yes, no = KIND_NAMES[kind]
-        if c[0] == "bool":
-            rs = []
-            for x in c[2]:
-                r = kind_truth(x, O, kind)
-                rs.append(r)
-                if (c[1] == "and" and r is False) or (c[1] == "or" and r is True):
-                    break
-            if c[1] == "and":
-                return False if False in rs else (None if None in rs else True)
-            return True if True in rs else (None if None in rs else False)
-        if c[0] == "un" and c[1] == "Not":
-            r = kind_truth(c[2], O, kind)
-            return None if r is None else not r
-        if c[0] == "call" and c[1] == ("name", "isinstance") and len(c[2]) == 2 and c[2][0] == O:
-            names = {x[1] for x in subterms(c[2][1]) if x[0] == "name"}
-            if names & yes:
-                return True
-            return False if names and names <= no else None
-        return None
+
+        def atom(x):
+            if x[0] == "call" and x[1] == ("name", "isinstance") and len(x[2]) == 2 and x[2][0] == O:
+                names = {y[1] for y in subterms(x[2][1]) if y[0] == "name"}
+                if names & yes:
+                    return True
+                return False if names and names <= no else None
+            return None
+        return _tv(c, atom)
     for q in ("table.Table.__lshift__", "table.Table.__rlshift__"):
         g = prog.functions.get(q)
         if g is None:
@@ -580,25 +571,16 @@ def _structural(ctx) -> None:
                  "Iterator", "Generator", "slice", "date", "datetime", "bytearray", "MutableSequence"}
 
     def tv_str(c):
-        if c[0] == "bool":
-            rs = []
-            for x in c[2]:
-                r = tv_str(x)
-                rs.append(r)
-                if (c[1] == "and" and r is False) or (c[1] == "or" and r is True):
-                    break
-            if c[1] == "and":
-                return False if False in rs else (None if None in rs else True)
-            return True if True in rs else (None if None in rs else False)
-        if c[0] == "un" and c[1] == "Not":
-            r = tv_str(c[2])
-            return None if r is None else not r
-        if c[0] == "call" and c[1] == ("name", "isinstance") and len(c[2]) == 2 and c[2][0] == OTHER:
-            names = {x[1] for x in subterms(c[2][1]) if x[0] == "name"}
-            if names & STR_TRUE:
-                return True
-            return False if names and names <= STR_FALSE else None
-        return None
+        from ..tv import tv as _tv
+
+        def atom(x):
+            if x[0] == "call" and x[1] == ("name", "isinstance") and len(x[2]) == 2 and x[2][0] == OTHER:
+                names = {y[1] for y in subterms(x[2][1]) if y[0] == "name"}
+                if names & STR_TRUE:
+                    return True
+                return False if names and names <= STR_FALSE else None
+            return None
+        return _tv(c, atom)
     for st in _result_sites(prog, vl, ("Vector", "cls", "copy")):
         if any(tv_str(t) is (not pol) for t, pol in flatten_conds(st.ev.conds)):
             continue                               # not reached by a string operand
